@@ -28,7 +28,7 @@ Has(r, f) == f \in DOMAIN r
 OpOf(o) == IF o.op = "run" THEN [op |-> "run", roots |-> o.roots]
            ELSE [op |-> "evict", keys |-> IF Has(o, "keys") THEN ToSet(o.keys) ELSE {},
                  conc |-> IF Has(o, "conc") THEN o.conc ELSE FALSE]
-CfgOf(e) == [bat |-> [k \in Nodes |-> IF Has(e.cfg.bat, k) THEN e.cfg.bat[k] ELSE <<>>],
+CfgOf(e) == [id |-> 0, bat |-> [k \in Nodes |-> IF Has(e.cfg.bat, k) THEN e.cfg.bat[k] ELSE <<>>],
              pan |-> ToSet(e.cfg.pan), par |-> e.cfg.par,
              plan |-> [i \in 1..Len(e.cfg.plan) |-> OpOf(e.cfg.plan[i])]]
 
